@@ -36,8 +36,8 @@ func init() {
 			return 16
 		},
 		Run: runC06,
-		Require: []string{"steps", "replays", "reorgs", "adv_blocks_rejected", "pool_scans", "pool_txs_scanned", "pool_conflict_second_rejected", "concurrent_rounds", "honest_tx_pool_accepted", "blocks_honest_tip", "contested_outpoints_spent", "mode_postblock", "mode_netsync",
-			"adv_block_rejected_dup-input-in-tx", "adv_block_rejected_dup-input-across-txs", "adv_block_rejected_spent-on-active-chain", "adv_block_rejected_only-on-losing-branch", "adv_block_rejected_never-created", "adv_block_rejected_immature-coinbase"},
+		Require: append([]string{"steps", "replays", "reorgs", "adv_blocks_rejected", "pool_scans", "pool_txs_scanned", "pool_conflict_second_rejected", "concurrent_rounds", "honest_tx_pool_accepted", "blocks_honest_tip", "contested_outpoints_spent", "mode_postblock", "mode_netsync",
+			"adv_block_rejected_dup-input-in-tx", "adv_block_rejected_dup-input-across-txs", "adv_block_rejected_spent-on-active-chain", "adv_block_rejected_only-on-losing-branch", "adv_block_rejected_never-created", "adv_block_rejected_immature-coinbase"}, c06RespendRequire...),
 		Assumptions: []string{
 			"regnet parameters, pow era, InstantBlock difficulty (every block carries the same work, so 'heavier' = 'longer'), CoinbaseMaturity=3",
 			"the replay model (kit/node/ledger.go) and the harness block model are correct; they share no code with the node's validation or indexes",
@@ -98,8 +98,11 @@ func runC06(c *kit.Ctx) {
 		return strings.Join(sigs, "")
 	}
 
+	respend := newC06Respend(h, c)
 	h.onSubmit = func() { scanPool(nil, false) }
 	h.onStep = func(kind string) {
+		// one targeted re-spend case (c06_respend.go) before the oracle looks
+		respend.probe()
 		l := nd.Replay()
 		c.Inc("replays")
 		for _, is := range l.Issues {
@@ -118,6 +121,14 @@ func runC06(c *kit.Ctx) {
 	}
 	h.onAdvBlock = func(kind string, res hAdvResult) {
 		c.Case("adv:"+kind+fmt.Sprint(h.stepNo), true)
+		if res.Err != nil && res.TipUnchanged && !res.OnChain {
+			switch kind {
+			case kRespendFirst, kRespendMiddle, kRespendLast:
+				c.Inc(kind + "_block_rejected")
+			case kTwoSame, kTwoDiff, kOneSame, kOneDiff:
+				c.Inc(kind + "_rejected")
+			}
+		}
 		switch {
 		case res.OnChain || !res.TipUnchanged:
 			c.Violate("adv-block-accepted:"+kind, fmt.Sprintf("step %d: block with a %s spend (valid in every other respect) was connected: height %d -> %d, err=%v", h.stepNo, kind, res.Height0, res.Height1, res.Err), nil)
